@@ -190,10 +190,10 @@ Section Main.
   Let I := info_from_xref_entries E'.
 
   Hypothesis H_magic : p_magic p = true.
-  Hypothesis H_chain : exists sx, p_startxref p = Some sx /\ (sx <? flen)%N = true /\ chain f flen [] sx S c0.
+  Hypothesis H_chain : exists sx, p_startxref p = Some sx /\ (sx <? flen)%N = true /\ chain f flen sx S.
   Hypothesis H_offs : NoDup (map s_off S).
   Hypothesis H_root : match S with s :: _ => s_root s = Some (ORef rn rg) | [] => False end.
-  (* the walk registers xref-stream objects only *)
+  (* [c0]: what the context holds before parse_objects (empty since commit 4807949; kept general) *)
   Hypothesis H_c0 : forall id v, ctx_get c0 id = Some v -> v = VXStm.
   (* the number of an xref-stream object is mentioned, if at all, by an in-use entry for that very object *)
   Hypothesis H_private : forall id, ctx_get c0 id <> None ->
@@ -427,32 +427,34 @@ Section Main.
 End Main.
 
 (* ---------- the loader on a well-formed abstract file ---------- *)
-Record wf_file (p : pdf) (S : list sect) (c0 : ctx) (rn rg : N) : Prop := {
+Record wf_file (p : pdf) (S : list sect) (rn rg : N) : Prop := {
   wf_magic : p_magic p = true;
-  wf_chain : exists sx, p_startxref p = Some sx /\ (sx <? p_flen p)%N = true /\ chain (p_file p) (p_flen p) [] sx S c0;
+  wf_chain : exists sx, p_startxref p = Some sx /\ (sx <? p_flen p)%N = true /\ chain (p_file p) (p_flen p) sx S;
   wf_offs : NoDup (map s_off S);
   wf_root : match S with s :: _ => s_root s = Some (ORef rn rg) | [] => False end;
-  wf_c0 : forall id v, ctx_get c0 id = Some v -> v = VXStm;
-  wf_private : forall id, ctx_get c0 id <> None ->
-    lookup_ent (all_ents S) (fst id) = None \/
-    exists e ofs nx ents rt pv, lookup_ent (all_ents S) (fst id) = Some e /\ x_id e = id /\ x_st e = XInUse ofs /\
-                                find (p_file p) ofs = Some (IXStm id ents rt pv, nx);
-  wf_inuse : forall e ofs, In e (first_per_key (all_ents S)) -> x_st e = XInUse ofs -> ctx_get c0 (x_id e) = None ->
-    good (p_file p) (p_flen p) c0 (info_from_xref_entries (first_per_key (all_ents S))) (x_id e) ofs;
+  wf_inuse : forall e ofs, In e (first_per_key (all_ents S)) -> x_st e = XInUse ofs ->
+    good (p_file p) (p_flen p) [] (info_from_xref_entries (first_per_key (all_ents S))) (x_id e) ofs;
   wf_members : forall e stm idx ms n v, In e (first_per_key (all_ents S)) -> x_st e = XInStream stm idx ->
     container (p_file p) (all_ents S) stm = Some ms -> In (n, v) ms ->
     exists idx', lookup_ent (all_ents S) n = Some (mkxent n 0 (XInStream stm idx'));
   wf_members_nodup : forall e stm idx ms, In e (first_per_key (all_ents S)) -> x_st e = XInStream stm idx ->
     container (p_file p) (all_ents S) stm = Some ms -> NoDup (map fst ms) }.
 
-Theorem load_wf p S c0 rn rg :
-  wf_file p S c0 rn rg ->
-  exists c, load p = Loaded c (rn, rg) /\
-            forall id, ctx_get c id = match resolve (p_file p) (all_ents S) id with Some v => Some v | None => ctx_get c0 id end.
+Theorem load_wf p S rn rg :
+  wf_file p S rn rg ->
+  exists c, load p = Loaded c (rn, rg) /\ forall id, ctx_get c id = resolve (p_file p) (all_ents S) id.
 Proof.
-  intros [Hm (sx & Hs & Hb & Ch) Ho Hr Hc0 Hp Hi Hmem Hnd].
+  intros [Hm (sx & Hs & Hb & Ch) Ho Hr Hi Hmem Hnd].
   set (f := p_file p) in *. set (flen := p_flen p) in *.
   set (I := info_from_xref_entries (first_per_key (all_ents S))) in *.
+  set (c0 := ([] : ctx)).
+  assert (Hc0 : forall id v, ctx_get c0 id = Some v -> v = VXStm) by (intros id v H; discriminate).
+  assert (Hp : forall id, ctx_get c0 id <> None ->
+     lookup_ent (all_ents S) (fst id) = None \/
+     exists e ofs nx ents rt pv, lookup_ent (all_ents S) (fst id) = Some e /\ x_id e = id /\ x_st e = XInUse ofs /\
+                                 find f ofs = Some (IXStm id ents rt pv, nx)) by (intros id H; exfalso; apply H; reflexivity).
+  assert (Hi' : forall e ofs, In e (first_per_key (all_ents S)) -> x_st e = XInUse ofs -> ctx_get c0 (x_id e) = None ->
+     good f flen c0 I (x_id e) ofs) by (intros; apply Hi; assumption).
   assert (ND : NoDup (map fst (files I))) by (apply files_info_NoDup, first_per_key_NoDup).
   assert (Good : forall id ofs, In (id, ofs) (files I) -> ctx_get c0 id = None -> good f flen c0 I id ofs).
   { intros id ofs Hin G. apply files_info_iff in Hin as (e & He & <- & St). apply Hi; assumption. }
@@ -467,95 +469,70 @@ Proof.
   - unfold load, load_fuel. rewrite Hm, Hs. cbn [negb]. fold f flen. rewrite Hb. cbn [negb].
     assert (Hroot : match (None : option obj) with Some r0 => Some r0 | None => match S with s :: _ => s_root s | [] => None end end = Some (ORef rn rg)).
     { destruct S; [destruct Hr | exact Hr]. }
-    rewrite (walk_chain f flen [] sx S c0 Ch (Datatypes.S (Datatypes.S (len f))) [] [] [] None (ORef rn rg) Ho (fun _ _ H => H) Hroot).
-    2:{ pose proof (chain_length _ _ _ _ _ _ Ch Ho). unfold len. lia. }
-    cbn [app]. rewrite merge_newest_first. fold I. unfold parse_objects. rewrite E1, E2. reflexivity.
-  - intros id. eapply (final_ctx p S c0); eauto.
+    rewrite (walk_chain f flen sx S Ch (Datatypes.S (Datatypes.S (len f))) [] [] [] None (ORef rn rg) Ho (fun _ _ H => H) Hroot).
+    2:{ pose proof (chain_length _ _ _ _ Ch Ho). unfold len. lia. }
+    cbn [app]. rewrite merge_newest_first. fold I. unfold parse_objects. fold c0. rewrite E1, E2. reflexivity.
+  - intros id. rewrite (final_ctx p S c0 Hc0 Hp Hi' Hmem Hnd c2 A B _ P3 id).
+    fold f. destruct (resolve f (all_ents S) id); reflexivity.
 Qed.
 
 (* ---------- sections described by the contents of the file ---------- *)
 (* what lies at offset [o]: a classic table with its trailer, an xref stream, or a hybrid section
-   (table whose trailer names an /XRefStm inside the file).  The xref-stream object gets registered. *)
-Inductive section_at (f : file) (flen : N) (c : ctx) (o : N) : ctx -> list xent -> option obj -> option N -> Prop :=
+   (table whose trailer names an /XRefStm inside the file) *)
+Inductive section_at (f : file) (flen : N) (o : N) : list xent -> option obj -> option N -> Prop :=
 | SA_table ents rt pv nx :
-    find f o = Some (IXSect ents (Some (mktrailer rt pv None)), nx) -> section_at f flen c o c ents rt pv
+    find f o = Some (IXSect ents (Some (mktrailer rt pv None)), nx) -> section_at f flen o ents rt pv
 | SA_stream xid ents rt pv nx :
-    find f o = Some (IXStm xid ents rt pv, nx) -> ctx_get c xid = None ->
-    section_at f flen c o (ctx_set c xid VXStm) ents rt pv
+    find f o = Some (IXStm xid ents rt pv, nx) -> section_at f flen o ents rt pv
 | SA_hybrid ents rt pv nx xs xid xents xrt xpv nx' :
     find f o = Some (IXSect ents (Some (mktrailer rt pv (Some xs))), nx) -> (xs <=? flen)%N = true ->
-    find f xs = Some (IXStm xid xents xrt xpv, nx') -> ctx_get c xid = None ->
-    section_at f flen c o (ctx_set c xid VXStm) (ents ++ xents) rt pv.
+    find f xs = Some (IXStm xid xents xrt xpv, nx') ->
+    section_at f flen o (ents ++ xents) rt pv.
 
-Lemma section_step f flen c o c' ents rt pv :
-  section_at f flen c o c' ents rt pv -> step f flen c o = Some (c', (ents, rt, pv)).
+Lemma section_step f flen o ents rt pv :
+  section_at f flen o ents rt pv -> step f flen o = Some (ents, rt, pv).
 Proof.
-  intros [ents0 rt0 pv0 nx F | xid ents0 rt0 pv0 nx F G | ents0 rt0 pv0 nx xs xid xents xrt xpv nx' F Hx Fx G];
+  intros [ents0 rt0 pv0 nx F | xid ents0 rt0 pv0 nx F | ents0 rt0 pv0 nx xs xid xents xrt xpv nx' F Hx Fx];
     unfold step, parse_xref_section; rewrite F.
   - reflexivity.
-  - unfold parse_xref_stream. rewrite F. cbn [indirect]. rewrite reg_res_fresh by exact G. reflexivity.
-  - cbn [t_xrefstm t_root t_prev]. rewrite Hx. unfold parse_xref_stream. rewrite Fx. cbn [indirect].
-    rewrite reg_res_fresh by exact G. reflexivity.
+  - unfold parse_xref_stream. rewrite F. reflexivity.
+  - cbn [t_xrefstm t_root t_prev]. rewrite Hx. unfold parse_xref_stream. rewrite Fx. reflexivity.
 Qed.
 
 (* the sections linked by /Prev from offset [o] on, newest first *)
-Inductive sections (f : file) (flen : N) : ctx -> N -> list sect -> ctx -> Prop :=
-| SS_last c o c' ents rt :
-    (o <? flen)%N = true -> section_at f flen c o c' ents rt None -> sections f flen c o [(o, ents, rt)] c'
-| SS_cons c o c' ents rt o' l c'' :
-    (o <? flen)%N = true -> section_at f flen c o c' ents rt (Some o') ->
-    sections f flen c' o' l c'' -> sections f flen c o ((o, ents, rt) :: l) c''.
+Inductive sections (f : file) (flen : N) : N -> list sect -> Prop :=
+| SS_last o ents rt :
+    (o <? flen)%N = true -> section_at f flen o ents rt None -> sections f flen o [(o, ents, rt)]
+| SS_cons o ents rt o' l :
+    (o <? flen)%N = true -> section_at f flen o ents rt (Some o') ->
+    sections f flen o' l -> sections f flen o ((o, ents, rt) :: l).
 
-Lemma sections_chain f flen c o S c' : sections f flen c o S c' -> chain f flen c o S c'.
+Lemma sections_chain f flen o S : sections f flen o S -> chain f flen o S.
 Proof.
-  induction 1 as [c o c' ents rt Hb SA | c o c' ents rt o' l c'' Hb SA _ IH].
+  induction 1 as [o ents rt Hb SA | o ents rt o' l Hb SA _ IH].
   - apply C_last; [exact Hb | apply section_step, SA].
   - eapply C_cons; [exact Hb | apply section_step, SA | exact IH].
 Qed.
 
-Lemma section_at_xstm f flen c o c' ents rt pv :
-  section_at f flen c o c' ents rt pv -> (forall id v, ctx_get c id = Some v -> v = VXStm) ->
-  forall id v, ctx_get c' id = Some v -> v = VXStm.
-Proof.
-  intros SA H id v G. destruct SA; [eapply H; eauto | |];
-    (destruct (oid_dec id xid) as [->|Ne]; [rewrite ctx_get_set_same in G; congruence | rewrite ctx_get_set_other in G by exact Ne; eapply H; eauto]).
-Qed.
-
-Lemma sections_xstm f flen c o S c' :
-  sections f flen c o S c' -> (forall id v, ctx_get c id = Some v -> v = VXStm) ->
-  forall id v, ctx_get c' id = Some v -> v = VXStm.
-Proof.
-  induction 1 as [c o c' ents rt Hb SA | c o c' ents rt o' l c'' Hb SA _ IH]; intros H.
-  - eapply section_at_xstm; eauto.
-  - apply IH. eapply section_at_xstm; eauto.
-Qed.
-
 (* The main theorem, hypotheses stated on the contents of the file only.
-   [S] : the sections of the history, newest first (each: offset, entries, /Root);  [c0] : the xref-stream
-   objects.  Hypotheses (2)-(4) are exactly the complements of the known classes of findings:
-   (2) excludes an xref-stream object whose number another revision uses          (C04-xref-stream-id-reuse)
+   [S] : the sections of the history, newest first (each: offset, entries, /Root).
+   Hypotheses (3) and (4) are exactly the complements of the two open classes of findings:
    (3) [good] asks, for a referenced /Length, an in-file integer object              (C03-length-in-objstm)
    (4) excludes a used object stream with a member superseded by a newer revision  (C04-stale-objstm-member) *)
-Theorem load_history p S c0 rn rg sx :
+Theorem load_history p S rn rg sx :
   p_magic p = true -> p_startxref p = Some sx -> (sx <? p_flen p)%N = true ->
-  sections (p_file p) (p_flen p) [] sx S c0 ->                                             (* the /Prev chain *)
+  sections (p_file p) (p_flen p) sx S ->                                                   (* the /Prev chain *)
   NoDup (map s_off S) ->                                                                   (* … visits no offset twice *)
   match S with s :: _ => s_root s = Some (ORef rn rg) | [] => False end ->                (* newest /Root *)
-  (forall id, ctx_get c0 id <> None ->                                                     (* (2) *)
-     lookup_ent (all_ents S) (fst id) = None \/
-     exists e ofs nx ents rt pv, lookup_ent (all_ents S) (fst id) = Some e /\ x_id e = id /\ x_st e = XInUse ofs /\
-                                 find (p_file p) ofs = Some (IXStm id ents rt pv, nx)) ->
-  (forall e ofs, In e (first_per_key (all_ents S)) -> x_st e = XInUse ofs -> ctx_get c0 (x_id e) = None ->   (* (3) *)
-     good (p_file p) (p_flen p) c0 (info_from_xref_entries (first_per_key (all_ents S))) (x_id e) ofs) ->
+  (forall e ofs, In e (first_per_key (all_ents S)) -> x_st e = XInUse ofs ->                                  (* (3) *)
+     good (p_file p) (p_flen p) [] (info_from_xref_entries (first_per_key (all_ents S))) (x_id e) ofs) ->
   (forall e stm idx ms n v, In e (first_per_key (all_ents S)) -> x_st e = XInStream stm idx ->                (* (4) *)
      container (p_file p) (all_ents S) stm = Some ms -> In (n, v) ms ->
      exists idx', lookup_ent (all_ents S) n = Some (mkxent n 0 (XInStream stm idx'))) ->
   (forall e stm idx ms, In e (first_per_key (all_ents S)) -> x_st e = XInStream stm idx ->
      container (p_file p) (all_ents S) stm = Some ms -> NoDup (map fst ms)) ->
-  exists c, load p = Loaded c (rn, rg) /\
-            forall id, ctx_get c id = match resolve (p_file p) (all_ents S) id with Some v => Some v | None => ctx_get c0 id end.
+  exists c, load p = Loaded c (rn, rg) /\ forall id, ctx_get c id = resolve (p_file p) (all_ents S) id.
 Proof.
-  intros Hm Hs Hb Sec Ho Hr Hp Hi Hmem Hnd. apply load_wf. constructor; auto.
-  - exists sx. split; [exact Hs|]. split; [exact Hb|]. apply sections_chain, Sec.
-  - eapply sections_xstm; [exact Sec|]. intros id v H. discriminate.
+  intros Hm Hs Hb Sec Ho Hr Hi Hmem Hnd. apply load_wf. constructor; auto.
+  exists sx. split; [exact Hs|]. split; [exact Hb|]. apply sections_chain, Sec.
 Qed.
